@@ -161,7 +161,7 @@ pub fn judge(_part: &str, case: &Case, tally: &mut Tally) -> Verdict {
     }
 }
 
-fn gen_random(src: &mut Src, _i: usize) -> Case {
+pub fn gen_random(src: &mut Src, _i: usize) -> Case {
     let cols = match src.below(10) {
         0 => 80,
         1 => 100,
